@@ -976,6 +976,15 @@ func (bd *Bounds) ProveAtMost(at ssa.Instruction, v ssa.Value, k int64) bool {
 	return pr.prove(t, Zero, k)
 }
 
+// ProveDiffAtMost: a - b <= k at instruction at.
+func (bd *Bounds) ProveDiffAtMost(at ssa.Instruction, a, b ssa.Value, k int64) bool {
+	pr := bd.newProver(at)
+	ta, tb := pr.termOf(a), pr.termOf(b)
+	pr.pathFacts()
+	pr.refresh()
+	return pr.prove(ta, tb, k)
+}
+
 // ---- interprocedural facts ----
 
 type paramKey struct {
